@@ -163,7 +163,8 @@ def judge (j : Json) : Except String Verdict := do
   let mut spec := true
   let mut why := ""
   let mut sig := ""
-  let mut nontrivial := false
+  -- every session decides something: creation, the configured mask, or dispatch
+  let nontrivial := true
   -- an observation that is a hang or a crash never satisfies the property
   if note.startsWith "crashed" || note.startsWith "blocked" || oStart == "blocked" || note == "stop blocked" then
     return { agree := false, spec := false, why := s!"implementation {if note == "" then "blocked in Start" else note}",
@@ -303,7 +304,6 @@ def judge (j : Json) : Except String Verdict := do
       if mR != oR then
         agree := false
         if why == "" then why := s!"{op} result: model {mR} impl {oR}"
-      if !oC.isEmpty then nontrivial := true
       -- spec, directly on the observation ------------------------------------------
       let scriptErr := getStrD q "err"
       match rq with
